@@ -2,10 +2,15 @@
 
 Time: tick = 0.25 s (dyadic, so the float arithmetic of the real code is exact); virtual time = T0 + tick * 0.25.
 The harness fires sleep timers itself (`wake i`), never early, possibly late and in any order; the clock only moves on `adv`.
+An admitted entrant stays inside its `async with` body until the schedule makes it leave (`leave i kind`): the body
+returns ("normal"), raises an ordinary exception ("raise"), the task is cancelled ("cancel": CancelledError reaches
+__aexit__), or an enclosing `asyncio.timeout` expires ("timeout": the real asyncio.timeout machinery cancels the body
+and turns the CancelledError into TimeoutError after __aexit__ ran).  `abandon i` cancels an entrant that sleeps
+inside __aenter__.
 
-stdin : {"schedules": [{"count": c, "window": w_ticks, "acts": [["enter"] | ["wake", i] | ["adv", dt], ...]}, ...]}
+stdin : {"schedules": [{"count": c, "window": w_ticks, "acts": [["enter"] | ["wake", i] | ["adv", dt] | ["leave", i, kind] | ["abandon", i], ...]}, ...]}
 stdout: {"results": [{"trace": [obs after every action], "viol": [...]}]}
-  obs = {"now": t, "items": [t...], "waiters": [[id, wake_tick], ...] (by id), "adm": [[id, t], ...]}
+  obs = {"now": t, "items": [t...], "waiters": [[id, wake_tick], ...] (by id), "adm": [[id, t], ...], "inside": [id...] (admission order)}
 """
 import heapq
 import json
@@ -28,6 +33,10 @@ class Livelock(Exception):
     pass
 
 
+class BodyError(Exception):
+    pass
+
+
 def to_tick(x):
     q = (x - T0) / UNIT
     if q != int(q):
@@ -43,9 +52,23 @@ def run_schedule(dl, count, window, acts):
     viol = []
     trace = []
 
+    inside = []          # admitted, still in the body (admission order)
+    admitted = set()
+    gates, mode, timeouts, left_how = [], [], [], {}
+
     async def entrant(i):
-        async with lim:
-            adm.append([i, to_tick(time.time())])
+        async with asyncio.timeout(None) as to:         # no deadline until the schedule says `leave i timeout`
+            timeouts[i] = to
+            async with lim:
+                adm.append([i, to_tick(time.time())])
+                admitted.add(i)
+                inside.append(i)
+                try:
+                    await gates[i].wait()
+                    if mode[i] == 'raise':
+                        raise BodyError(i)
+                finally:
+                    inside.remove(i)
 
     def settle_ready():
         n = 0
@@ -66,7 +89,7 @@ def run_schedule(dl, count, window, acts):
     def waiters():
         out = []
         for i, t in enumerate(tasks):
-            if not t.done():
+            if not t.done() and i not in admitted:
                 h = timer_of(i)
                 out.append([i, to_tick(h._when) if h is not None else None])
         return out
@@ -107,6 +130,9 @@ def run_schedule(dl, count, window, acts):
             who = None
             if a[0] == 'enter':
                 who = len(tasks)
+                gates.append(asyncio.Event())
+                mode.append(None)
+                timeouts.append(None)
                 tasks.append(dl.spawn(entrant(who)))
                 settle_ready()
             elif a[0] == 'wake':
@@ -122,15 +148,46 @@ def run_schedule(dl, count, window, acts):
                         settle_ready()
             elif a[0] == 'adv':
                 dl.loop.vt += max(0, a[1]) * UNIT
+            elif a[0] == 'leave':
+                i, kind = a[1], a[2]
+                if i in inside:
+                    left_how[i] = kind
+                    if kind in ('normal', 'raise'):
+                        mode[i] = kind
+                        gates[i].set()
+                    elif kind == 'cancel':
+                        tasks[i].cancel()
+                    elif kind == 'timeout':
+                        timeouts[i].reschedule(dl.loop.time())      # deadline = now: asyncio.timeout expires
+                    else:
+                        raise ValueError(a)
+                    settle_ready()
+                    if i in inside or not tasks[i].done():
+                        viol.append({'kind': 'raised', 'at': k, 'entrant': i, 'exc': f'body exit ({kind}) did not end the entrant'})
+            elif a[0] == 'abandon':
+                i = a[1]
+                if i < len(tasks) and not tasks[i].done() and i not in admitted:
+                    left_how[i] = 'cancel'
+                    tasks[i].cancel()
+                    settle_ready()
             else:
                 raise ValueError(a)
-            trace.append({'now': to_tick(dl.now), 'items': [to_tick(x) for x in lim._items], 'waiters': waiters(), 'adm': [list(x) for x in adm]})
+            trace.append({'now': to_tick(dl.now), 'items': [to_tick(x) for x in lim._items], 'waiters': waiters(), 'adm': [list(x) for x in adm],
+                          'inside': list(inside)})
             if who is not None:
                 check_prompt(k, who)
             check_window(k)
             for i, t in enumerate(tasks):
-                if t.done() and not t.cancelled() and t.exception() is not None:
-                    viol.append({'kind': 'raised', 'at': k, 'entrant': i, 'exc': repr(t.exception())})
+                if t.done():
+                    how = left_how.get(i)
+                    exc = None if t.cancelled() else t.exception()
+                    ok = ((how in (None, 'normal') and not t.cancelled() and exc is None)
+                          or (how == 'raise' and isinstance(exc, BodyError))
+                          or (how == 'cancel' and t.cancelled())
+                          or (how == 'timeout' and isinstance(exc, TimeoutError)))
+                    if not ok:
+                        viol.append({'kind': 'raised', 'at': k, 'entrant': i, 'left': how,
+                                     'exc': 'cancelled' if t.cancelled() else repr(exc)})
         # end game with asyncio's OWN timer handling: everybody must get in, each at an instant a slot frees
         n_before = len(adm)
         for _ in range(MAX_STEPS):
@@ -143,7 +200,7 @@ def run_schedule(dl, count, window, acts):
         else:
             raise Livelock()
         settle_ready()
-        if count >= 1 and any(not t.done() for t in tasks):
+        if count >= 1 and any(not t.done() and i not in admitted for i, t in enumerate(tasks)):
             viol.append({'kind': 'not-prompt', 'at': 'end', 'detail': 'entrants still blocked after all timers ran', 'adm': list(adm)})
         check_window('end')
         times = [t for _, t in adm]
